@@ -308,68 +308,96 @@ func (g *Gen) loopEnv(li *loopInfo, st *State, phiVals map[*ssa.Phi]string) map[
 	return vars
 }
 
-// namesAt resolves source variable names to values just before instruction index upTo of block at:
-// parameters, then the latest dominating DebugRef for each name.
+// namesAt resolves source variable names to values just before instruction index upTo of block at.
+// Candidates for a name are the SSA values that any DebugRef in the function associates with it,
+// the phi nodes commented with it, and (for variables that live in memory) the Alloc commented
+// with it. Among the candidates whose definition dominates the point, the latest definition wins;
+// a memory-resident variable is always read through its cell.
 func (g *Gen) namesAt(at *ssa.BasicBlock, upTo int) map[string]Val {
 	vars := map[string]Val{}
 	for k, v := range g.penv {
 		vars[k] = v
 	}
 	type cand struct {
-		v   Val
-		blk int
-		ord int
+		v    Val
+		rank [2]int
 	}
 	best := map[string]cand{}
-	head := at
-	for _, b := range g.fn.Blocks {
-		if !(b.Dominates(head)) {
-			continue
+	better := func(a, b [2]int) bool { return a[0] > b[0] || (a[0] == b[0] && a[1] > b[1]) }
+	idxOf := func(ins ssa.Instruction) int {
+		for i, x := range ins.Block().Instrs {
+			if x == ins {
+				return i
+			}
 		}
-		for i, ins := range b.Instrs {
-			if b == head && i >= upTo {
-				break
+		return -1
+	}
+	// rank of a value's definition if it is available at the point, else ok=false
+	avail := func(v ssa.Value) ([2]int, bool) {
+		switch x := v.(type) {
+		case *ssa.Parameter, *ssa.FreeVar, *ssa.Global, *ssa.Function:
+			return [2]int{-1, 0}, true
+		case *ssa.Const:
+			return [2]int{-2, 0}, true
+		case ssa.Instruction:
+			b := x.Block()
+			if b == nil {
+				return [2]int{}, false
 			}
-			if al, isAlloc := ins.(*ssa.Alloc); isAlloc && isSimpleIdent(al.Comment) && al.Comment != "varargs" && al.Comment != "slicelit" && al.Comment != "complit" && al.Comment != "makeslice" {
-				// a source variable that lives in memory is always read through its cell
-				if v, ok := g.valOpt(al); ok {
-					best[al.Comment] = cand{Val{Addr: v.T, GoT: al.Type().Underlying().(*types.Pointer).Elem()}, 1 << 30, i}
+			i := idxOf(x)
+			if b == at {
+				if i >= upTo {
+					return [2]int{}, false
 				}
-				continue
+				return [2]int{domDepth(b), i}, true
 			}
-			if phi, isPhi := ins.(*ssa.Phi); isPhi && isSimpleIdent(phi.Comment) {
-				// a phi (re)defines the source variable at the start of its block
-				if v, ok := g.valOpt(phi); ok {
-					c := cand{v, domDepth(b), i}
-					if o, ok := best[phi.Comment]; !ok || c.blk > o.blk || (c.blk == o.blk && c.ord > o.ord) {
-						best[phi.Comment] = c
-					}
-				}
-				continue
+			if b.Dominates(at) {
+				return [2]int{domDepth(b), i}, true
 			}
+		}
+		return [2]int{}, false
+	}
+	consider := func(name string, sv ssa.Value, asAddr bool) {
+		rk, ok := avail(sv)
+		if !ok {
+			return
+		}
+		v, ok := g.valOpt(sv)
+		if !ok {
+			return
+		}
+		if asAddr {
+			pt, isP := sv.Type().Underlying().(*types.Pointer)
+			if !isP {
+				return
+			}
+			v = Val{Addr: v.T, GoT: pt.Elem()}
+			rk = [2]int{1 << 30, 0}
+		}
+		if o, have := best[name]; !have || better(rk, o.rank) {
+			best[name] = cand{v, rk}
+		}
+	}
+	for _, b := range g.fn.Blocks {
+		for _, ins := range b.Instrs {
 			switch x := ins.(type) {
+			case *ssa.Alloc:
+				if isSimpleIdent(x.Comment) && x.Comment != "varargs" && x.Comment != "slicelit" && x.Comment != "complit" && x.Comment != "makeslice" {
+					consider(x.Comment, x, true)
+				}
+			case *ssa.Phi:
+				if isSimpleIdent(x.Comment) && x.Comment != "rangeindex" {
+					consider(x.Comment, x, false)
+				}
 			case *ssa.DebugRef:
 				name := debugName(x)
 				if name == "" {
 					continue
 				}
-				v, ok := g.valOpt(x.X)
-				if !ok {
-					continue
-				}
 				if x.IsAddr {
-					pt, isP := x.X.Type().Underlying().(*types.Pointer)
-					if !isP {
-						continue
-					}
-					v = Val{Addr: v.T, GoT: pt.Elem()}
-					// a variable that lives in memory is always read through its cell
-					best[name] = cand{v, 1 << 30, i}
-					continue
-				}
-				c := cand{v, domDepth(b), i}
-				if o, ok := best[name]; !ok || (o.blk != 1<<30 && (c.blk > o.blk || (c.blk == o.blk && c.ord > o.ord))) {
-					best[name] = c
+					consider(name, x.X, true)
+				} else {
+					consider(name, x.X, false)
 				}
 			}
 		}
@@ -433,6 +461,10 @@ func (g *Gen) loopHead(b *ssa.BasicBlock, li *loopInfo, st *State, rname string,
 	// inv-entry
 	vars := g.loopEnv(li, st, phiMerged)
 	env := g.envFor(vars, st, g.old)
+	if g.loopEntryEnv == nil {
+		g.loopEntryEnv = map[int]*Env{}
+	}
+	g.loopEntryEnv[li.ord] = g.envFor(vars, li.preSt, g.old)
 	for i, c := range invs {
 		t := g.mustClause(env, c.E, fmt.Sprintf("loop %d invariant#%d", li.ord, i))
 		g.oblige(fmt.Sprintf("%s/loop%d-inv-entry#%d", shortKey(g.key), li.ord, i), "inv-entry", c.Tags, rname, t, c.Src, firstPos(b))
@@ -464,6 +496,23 @@ func (g *Gen) loopHead(b *ssa.BasicBlock, li *loopInfo, st *State, rname string,
 			}
 		}
 		switch {
+		case v.Root:
+			if li.sRoots == nil {
+				li.sRoots = map[string][]string{}
+			}
+			g.cellKinds(v.GoT, func(k string) {
+				li.sRoots[k] = append(li.sRoots[k], v.Addr)
+				found := false
+				for _, kk := range li.kinds {
+					if kk == k {
+						found = true
+					}
+				}
+				if !found {
+					li.kinds = append(li.kinds, k)
+					sort.Strings(li.kinds)
+				}
+			})
 		case v.Win != nil:
 			li.sWins = append(li.sWins, *v.Win)
 		case v.GKind != "":
@@ -485,6 +534,9 @@ func (g *Gen) loopHead(b *ssa.BasicBlock, li *loopInfo, st *State, rname string,
 			conds = append(conds, "(< (l_obj l) "+st.A+")")
 			for _, s := range li.sLocs[k] {
 				conds = append(conds, "(not (= l "+s+"))")
+			}
+			for _, s := range li.sRoots[k] {
+				conds = append(conds, "(not (= (l_obj l) (l_obj "+s+")))")
 			}
 			if k == "bytes" {
 				for _, w := range li.sWins {
@@ -775,6 +827,14 @@ func (g *Gen) scanCall(li *loopInfo, st *State, ins ssa.CallInstruction, kinds m
 		return
 	}
 	ci := g.resolveCall(cc)
+	if ci.key == "sort.Slice" {
+		if mi, ok := cc.Args[0].(*ssa.MakeInterface); ok {
+			if slt, ok := mi.X.Type().Underlying().(*types.Slice); ok && !isByteLike(slt.Elem()) {
+				g.cellKinds(slt.Elem(), func(k string) { kinds[k] = true })
+				return
+			}
+		}
+	}
 	if ci.con == nil {
 		if ci.inlineFn != nil {
 			// conservative: treat as havoc-all (inlined bodies are small; refine when needed)
@@ -984,9 +1044,12 @@ func (g *Gen) backEdge(b *ssa.BasicBlock, succIdx int, h *ssa.BasicBlock, st *St
 			sk := g.freshConst("lf", "Loc")
 			g.instFrames(k, sk)
 			var conds []string
-			conds = append(conds, "(< (l_obj "+sk+") "+li.preSt.A+")")
+			conds = append(conds, "(< (l_obj "+sk+") "+li.preSt.A+")", "(not (= (l_obj "+sk+") 0))") // nothing lives in the nil object
 			for _, s := range li.sLocs[k] {
 				conds = append(conds, "(not (= "+sk+" "+s+"))")
+			}
+			for _, s := range li.sRoots[k] {
+				conds = append(conds, "(not (= (l_obj "+sk+") (l_obj "+s+")))")
 			}
 			if k == "bytes" {
 				for _, w := range li.sWins {
@@ -1056,6 +1119,9 @@ func (g *Gen) exit() {
 	}
 	env := g.envFor(vars, st, g.old)
 	for i, c := range g.con.Ensures {
+		if c.Unproved {
+			continue
+		}
 		t := g.mustClause(env, c.E, fmt.Sprintf("ensures#%d", i))
 		g.oblige(fmt.Sprintf("%s/ensures#%d", shortKey(g.key), i), "ensures", c.Tags, "r_exit", t, c.Src, g.fn.Pos())
 	}
@@ -1098,7 +1164,7 @@ func (g *Gen) frameCheck(st *State, env *Env) {
 		}
 		sk := g.freshConst("fr", "Loc")
 		g.instFrames(k, sk)
-		conds := []string{"(< (l_obj " + sk + ") A0)"}
+		conds := []string{"(< (l_obj " + sk + ") A0)", "(not (= (l_obj " + sk + ") 0))"}
 		for _, l := range modLocs[k] {
 			conds = append(conds, "(not (= "+sk+" "+l+"))")
 		}
